@@ -20,10 +20,9 @@ import c08_gen as gen
 import c08_validate as val
 
 THEOREMS = ['C08_volume_str_counts', 'C08_write_wf', 'C08_prune_preserves_wf',
-            'C08_remove_empty_volumes_ok', 'C08_geomcomp_partition',
-            'C08_wf_fileb_ok', 'C08_wf_stateb_sound',
-            'C08_none_operand_refuted', 'C08_helper_plane_refuted',
-            'C08_leading_zero_refuted', 'C08_bc_defined']
+            'C08_prune_total', 'C08_remove_empty_volumes_ok',
+            'C08_geomcomp_partition', 'C08_bc_defined',
+            'C08_wf_fileb_ok', 'C08_wf_stateb_sound']
 TRUSTED = [
     'hand-written model coq/C08/Model.v (modelled, tied by execution only)',
     'numeric fields: str(float) / numpy rendering of surface parameters and '
@@ -98,7 +97,8 @@ def run_multi(name, funs, cases, chunk=40, jobs=16, timeout=900):
     return {fun: sorted(v) for fun, v in bad.items()}, errors
 
 
-# ---- known-finding witnesses (minimal decks) --------------------------------
+# ---- corpus: minimal decks of the defects found on the unrepaired code (all
+# repaired since: 3f9f4fd, a12128b, d8902ad, 540bd39); run first on every check
 
 WITNESSES = {
     'empty_cellref_operand': ('''empty filler cell used twice
@@ -134,46 +134,33 @@ m1 1001 1.0
 
 m1 1001 1.0
 ''', []),
+    'bc_unwritten_surface': ('''flagged surface that no written volume uses
+1 1 -1.0 -1 imp:n=1
+2 0 1 imp:n=0
+
+1 so 2
+*5 py 7
+
+m1 1001 1.0
+''', []),
+    'bc_on_merged_duplicate': ('''flag carried by a surface merged into its duplicate
+1 1 -1.0 -1 2 imp:n=1
+2 0 1 : -3 imp:n=0
+
+1 so 2
+2 px 0
+*3 px 0
+
+m1 1001 1.0
+''', []),
 }
 
 
 # ---- classification of validator problems ------------------------------------
 
 def classify(problem, conv, cap, rd, args):
-    '''Narrow known-finding class of one validator problem, or None.'''
-    clause, msg = problem
-    if clause == 'none-operand' and cap is not None:
-        m = re.match(r'VOLU (\d+):', msg)
-        if m:
-            vid = int(m.group(1))
-            for vol in cap.vols:
-                if vol[0] == vid and vol[3] is not None \
-                        and None in vol[3][1]:
-                    return 'empty_cellref_operand'
-        return None
-    if clause == 'truncated' and cap is not None and conv.exc == 'KeyError' \
-            and '--skip-deduplication' not in args:
-        try:
-            missing = int(conv.msg)
-        except ValueError:
-            return None
-        if missing not in cap.union_ids:
-            return None
-        helper = [s for s in cap.surfs if s[0] == missing]
-        if not helper:
-            return None
-        for surf in cap.surfs:
-            if surf[0] < missing and surf[1] == helper[0][1] \
-                    and surf[2] == helper[0][2] and surf[4] is None:
-                return 'helper_plane_dedup_merge'
-        return None
-    if clause == 'geomcomp-name':
-        m = re.search(r'composition m(0+)(\d+)(_\S+)? which', msg)
-        if m:
-            fixed = 'm' + m.group(2) + (m.group(3) or '')
-            if fixed in [n for n, _, _ in rd.comps]:
-                return 'material_leading_zero'
-        return None
+    '''Narrow known-finding class of one validator problem, or None.  No open
+    class is left for C08: every problem is a plain VIOLATION.'''
     return None
 
 
@@ -232,7 +219,7 @@ def run(res, tier, seed, proofs_ok):
                 '--max-inline-score 0/100, a mixed set); non-trivial = a '
                 'file was written; distinct by (deck text, options)')
 
-    # ---- 1. known-finding witnesses ----
+    # ---- 1. corpus of former witnesses ----
     for cls, (deck_text, args) in WITNESSES.items():
         conv, cap = cap_mod.convert(deck_text, args)
         verdict = sweep_one(res, deck_text, args, conv, cap,
@@ -281,7 +268,7 @@ def run(res, tier, seed, proofs_ok):
                 res.sample({'deck': deck_text, 'args': args,
                             'file_bytes': len(conv.text)})
     bad, errs = run_multi('c08_tie', ['check_file', 'check_verdict',
-                                      'outside_guard'], cases)
+                                      'outside_guard', 'stage0_ok'], cases)
     n_in = len(bad['outside_guard']) if not errs else 0   # indices where outside_guard = false
     res.extra['guard'] = {'cases': len(cases),
                           'inside_wf_state (hypotheses of C08_write_wf hold '
@@ -295,6 +282,21 @@ def run(res, tier, seed, proofs_ok):
                    f'written bytes; {n_in} runs inside wf_state)',
                    not bad['check_verdict'] and not errs,
                    f'{len(bad["check_verdict"])} disagreements')
+    res.obligation(f'tie:stage0 ({len(cases)} snapshots: refs_ok and helpers_ok '
+                   '- the hypotheses of C08_prune_preserves_wf / C08_prune_total '
+                   '- hold on the tables construct_volume_t4 returned)',
+                   not bad['stage0_ok'] and not errs,
+                   f'{len(bad["stage0_ok"])} snapshots outside')
+    for idx in bad['stage0_ok'][:10]:
+        deck_text, args, exc, _verdict = meta[idx]
+        res.violation('correspondence',
+                      'the tables construct_volume_t4 returned do not satisfy '
+                      'refs_ok / helpers_ok (hypotheses of '
+                      'C08_prune_preserves_wf) [options '
+                      f'{" ".join(args) or "default"}]',
+                      {'input': {'deck': deck_text, 'args': args},
+                       'theorem_or_correspondence': 'tie:stage0'},
+                      found_input=False)
     if errs:
         res.violation('correspondence',
                       'the generated correspondence files do not compile: '
